@@ -1,0 +1,67 @@
+//go:build verif
+
+package vgirpc
+
+import "strings"
+
+// Verification hooks for property C27 (browser OAuth PKCE login). Add-only.
+
+// VerifPackOAuthCookie exposes packOAuthCookie.
+func VerifPackOAuthCookie(verifier, state, originalURL, returnTo string, sessionKey []byte, createdAt int64) string {
+	return packOAuthCookie(verifier, state, originalURL, returnTo, sessionKey, createdAt)
+}
+
+// VerifUnpackOAuthCookie exposes unpackOAuthCookie.
+func VerifUnpackOAuthCookie(cookieValue string, sessionKey []byte, maxAge int) (verifier, state, originalURL, returnTo string, err error) {
+	return unpackOAuthCookie(cookieValue, sessionKey, maxAge)
+}
+
+// VerifValidateOriginalURL exposes validateOriginalURL.
+func VerifValidateOriginalURL(u, prefix string) string { return validateOriginalURL(u, prefix) }
+
+// VerifValidateReturnTo exposes validateReturnTo over an allowlist given as a slice.
+func VerifValidateReturnTo(u string, allowed []string) string {
+	m := make(map[string]bool, len(allowed))
+	for _, a := range allowed {
+		m[a] = true
+	}
+	return validateReturnTo(u, m)
+}
+
+// VerifPkceSessionKey returns the cookie MAC key of a server with PKCE enabled.
+func VerifPkceSessionKey(h *HttpServer) []byte {
+	if h.pkce == nil {
+		return nil
+	}
+	return append([]byte(nil), h.pkce.sessionKey...)
+}
+
+// VerifPkceSessionMaxAge returns the max age the callback passes to unpack.
+func VerifPkceSessionMaxAge() int { return sessionMaxAge }
+
+// VerifPkceCookieNames returns (session cookie, auth cookie) names.
+func VerifPkceCookieNames() (string, string) { return sessionCookieName, authCookieName }
+
+func init() {
+	verifConstProviders = append(verifConstProviders, func() []VerifConst {
+		// longest _vgi_return_to that validateReturnTo still accepts (probe)
+		base := "http://localhost/"
+		maxRT := int64(0)
+		for n := len(base); n <= 70000; n++ {
+			if validateReturnTo(base+strings.Repeat("a", n-len(base)), nil) == "" {
+				break
+			}
+			maxRT = int64(n)
+		}
+		return []VerifConst{
+			verifNum("pkce_cookie_version", int64(sessionCookieVersion)),
+			verifNum("pkce_hmac_len", int64(pkceHMACLen)),
+			verifNum("pkce_session_max_age", int64(sessionMaxAge)),
+			verifNum("pkce_original_url_max", int64(maxOriginalURLLen)),
+			verifNum("pkce_return_to_max", maxRT),
+			verifNum("pkce_verifier_len", int64(len(generateCodeVerifier()))),
+			verifNum("pkce_state_len", int64(len(generateStateNonce()))),
+			verifBytes("pkce_default_origin", defaultAllowedReturnOrigin),
+		}
+	})
+}
